@@ -1,7 +1,7 @@
 #!/usr/bin/env python3
 """Apply a seeded change to /repo, run the given checks, undo the change, record which checks reported it.
 usage: try_mutant.py <seeded dir name> <Cxx> [<Cyy> ...]"""
-import json, subprocess, sys, time
+import json, os, subprocess, sys, time
 from pathlib import Path
 V = Path(__file__).resolve().parent.parent
 name, checks = sys.argv[1], sys.argv[2:]
@@ -11,7 +11,8 @@ assert subprocess.run(["git", "-C", "/repo", "status", "--porcelain", "--untrack
 subprocess.run(["git", "-C", "/repo", "apply", str(patch)], check=True)
 res = {}
 try:
-    procs = {c: subprocess.Popen(["python3", "tools/check.py", c], cwd=V, stdout=subprocess.PIPE, stderr=subprocess.STDOUT, text=True) for c in checks}
+    env = dict(os.environ, PV_OUT_DIR=str(V / "work" / "mutant_out" / name))
+    procs = {c: subprocess.Popen(["python3", "tools/check.py", c], cwd=V, env=env, stdout=subprocess.PIPE, stderr=subprocess.STDOUT, text=True) for c in checks}
     for c, p in procs.items():
         out = p.communicate()[0]
         lines = [l for l in out.splitlines() if l.startswith("VIOLATION") or l.startswith(c + ":")]
